@@ -8,6 +8,7 @@ From RPCX Require Wire.Bytes Wire.Header Wire.Codec Wire.CodecSpec.
 From RPCX Require Select.Simple Select.Jump Select.DoubleJump.
 From RPCX Require XClient.Breaker.
 From RPCX Require Client.ClientSM.
+From RPCX Require XClient.FailMode.
 Extraction Language OCaml.
 Extraction "model.ml"
   RoundRobin.rr_new RoundRobin.rr_run
@@ -21,4 +22,5 @@ Extraction "model.ml"
   Simple.rnd_select Simple.create_geo Simple.geo_select
   Jump.jump Jump.hash_string DoubleJump.ch_new DoubleJump.ch_update DoubleJump.ch_select
   Breaker.b_run Breaker.b_init Breaker.xb_run
-  ClientSM.run ClientSM.init ClientSM.new_call.
+  ClientSM.run ClientSM.init ClientSM.new_call
+  FailMode.xcall.
